@@ -120,7 +120,7 @@ PROPS = {
     },
     "C17": {
         "level": "exploration",
-        "level_text": "members are simulator tasks, so the completion order is the schedule; seeded exploration over strategies x member counts x outcomes x completion orders x cancellation-aware/waiting members, with the finite space (strategy x n<=4 x outcomes x orders) measured and, in the thorough tier, required to be covered completely; large groups (60-120 members, all but the deciding one long-lived); contract, cancellation, panic and goroutine-leak oracles",
+        "level_text": "members are simulator tasks, so the completion order is the schedule; seeded exploration over strategies x member counts x outcomes x completion orders x cancellation-aware/waiting members, with the finite space (strategy x n<=4 x outcomes x orders) measured and, in the thorough tier, required to be covered completely; large groups (60-120 members, all but the deciding one long-lived); the trait groups' unary Get/Update with a caller that goes away after the first failure was observed; contract, cancellation, panic and goroutine-leak oracles",
         "level_note": TRUST + "; cancellation is read no more strongly than the code documents it (a decided success of All/Most/Any must not cancel anybody; One derives no context)",
         "technique": "deterministic simulation (member completion order = seeded schedule) + strategy-contract oracle on (outcome vector, order) + synctest leak/panic monitor; measured coverage of the finite case space",
         "rule": ("runs are generated from the decision tape (strategy, direct or via Execute, n, outcomes, member kinds, release order of members); non-trivial = at least two members; "
@@ -181,7 +181,7 @@ PROPS = {
     },
     "C08": {
         "level": "exploration",
-        "level_text": "seeded exploration of write histories x include predicates given as truth tables over (id, value or absent) x backpressure on/off x updates-only, consumer pace decided by the scheduler; fold(stream) == List(WithInclude) == model filter after every phase, and the exact per-event decision table under backpressure; a quarter of the runs with an equivalence that ignores the field the predicate reads (boundary crossings between equivalent values must still be delivered; views compared up to the equivalence there)",
+        "level_text": "seeded exploration of write histories x include predicates given as truth tables over (id, value or absent) x backpressure on/off x updates-only, consumer pace decided by the scheduler; fold(stream) == List(WithInclude) == model filter after every phase (and fold == List with the same options for reads that carry two include options), and the exact per-event decision table under backpressure; a quarter of the runs with an equivalence that ignores the field the predicate reads (boundary crossings between equivalent values must still be delivered; views compared up to the equivalence there)",
         "level_note": TRUST + "; reference model of appendix A; where the predicate is true for absent values the exact event is not prescribed by the statement and only folding is checked",
         "technique": "deterministic simulation (seeded scheduler, consumer pace = schedule) + folded-view and per-event decision-table oracles from an executable reference model",
         "rule": RULE_SCHED,
@@ -195,7 +195,7 @@ PROPS = {
     },
     "C01": {
         "level": "exploration",
-        "level_text": "seeded generation of call sequences x option subsets x rng/clock faults for a single caller, compared call by call with an executable reference model; no schedule is involved, the simulator contributes the model, the faulted rng/clock seams and the live-subscriber observation of 'emits nothing'",
+        "level_text": "seeded generation of call sequences x option subsets x rng/clock faults for a single caller, compared call by call with an executable reference model (callbacks that complete the written message included); no schedule is involved, the simulator contributes the model, the faulted rng/clock seams and the live-subscriber observation of 'emits nothing'",
         "level_note": TRUST + "; the reference model (DESIGN.md appendix A) written from the documentation, flat scalar messages only (nested/oneof/map mask semantics are C05's subject)",
         "technique": "deterministic simulation, single task: seeded op/option/fault sequences against an executable reference model (refinement check per call)",
         "rule": ("call sequences are generated from the decision tape (length 1-30, ops and every option subset, ids, rng fault mode, clock jumps); a case is non-trivial when it has more than one call or at least one write option or fault; "
@@ -232,7 +232,7 @@ PROPS = {
     },
     "C03": {
         "level": "exploration",
-        "level_text": "seeded exploration of writer/subscriber interleavings at every hooked window with true quiescence detection; evidence over the sampled schedules, not a proof",
+        "level_text": "seeded exploration of writer/subscriber interleavings at every hooked window with true quiescence detection, also beside a backpressured subscription that is never read (every Value write then runs into its send bound on the fake clock; the lossy subscribers that keep receiving still end on Get); evidence over the sampled schedules, not a proof",
         "level_note": TRUST,
         "technique": "deterministic simulation (seeded scheduler over simhook windows, synctest quiescence), folded-view oracle at quiescence",
         "rule": RULE_SCHED,
